@@ -166,6 +166,32 @@ def run(tier, seed):
                 inside = -DAY <= d < DAY
                 B.run_case(regrun.policy_of(pd), reg, "dict", None if inside else "reject", f"pinned-attestation-certificate/{mode}/{fmt}", scn=s)
                 chk.seen((fmt, mode, d))
+    # 3c. android-key: the root certificate PRESENTED in x5c is the one whose validity counts, also when the anchors hold another issuance
+    #     of the same root (same subject and key, later validity)
+    for ni in (0, 1):
+        kw1 = dict(root_nb=T0 - 3000 * DAY, root_na=T0 - 10 * DAY, inter_nb=T0 - 2000 * DAY, inter_na=T0 + 1000 * DAY)
+        s = regsim.RScn("android-key", "ES256-P256")
+        s.n_inter = ni
+        s.k["pki_kw"] = kw1
+        v2 = regsim.PKI(s.pki_tag, n_inter=ni, root_nb=T0 - 1000 * DAY, root_na=T0 + 3000 * DAY).root_pem()
+        for d, exp in ((-20 * DAY, "accept"), (0, "reject"), (-11 * DAY, "accept"), (-9 * DAY, "reject"), (100 * DAY, "reject")):
+            s.now = T0 + d
+            s.k["leaf_nb"], s.k["leaf_na"] = T0 - 400 * DAY, T0 + 400 * DAY
+            pd, reg = regsim.build(s)
+            pd = dict(pd, builtin=dict(pd["builtin"], **{"android-key": list(pd["builtin"]["android-key"]) + [v2]}))
+            B.run_case(regrun.policy_of(pd), reg, "dict", exp, f"android-key presented root issuance expired, a later issuance is also an anchor (inter={ni})", scn=s)
+    # 3d. SafetyNet with the REAL built-in anchors (nothing substituted but the clock) and no RP roots: a forged chain is refused at every clock,
+    #     also after the built-in roots themselves have expired
+    for now in (T0, 1830000000, 1840000000, 1930000000, 2000000000):
+        s = regsim.RScn("android-safetynet", "ES256-P256")
+        s.n_inter = 1
+        s.now = now
+        s.k["leaf_nb"], s.k["leaf_na"] = now - DAY, now + DAY
+        s.k["pki_kw"] = dict(root_nb=now - 1000 * DAY, root_na=now + 1000 * DAY, inter_nb=now - 100 * DAY, inter_na=now + 100 * DAY)
+        s.k["sn_timestamp"] = now * 1000 - 1000
+        pd, reg = regsim.build(s)
+        pd = dict(pd, builtin={}, roots={})
+        B.run_case(regrun.policy_of(pd), reg, "dict", "reject", f"safetynet forged chain against the real built-in anchors at clock {now}", scn=s)
     # 4. histories: one response, clock moving between calls
     for fmt in ("packed", "apple", "android-safetynet", "android-key", "tpm"):
         s = regsim.RScn(fmt, "ES256-P256")
